@@ -5,7 +5,8 @@ The functions below read a history (newest event first, as the model stores it) 
 import Kap.Proofs.C17Inv
 namespace Kap.C17
 
-/-- The scheduling in force for `id`: parameters of its last Schedule call, unless a Release came after it. -/
+/-- The scheduling in force for `id`: parameters of its last Schedule call (schedule, offset in MILLISECONDS,
+last-scheduled time), unless a Release came after it. -/
 def epochOf (id : Nat) : List Ev → Option (Nat × Int × Int)
   | [] => none
   | .sched i sc off last :: r => if i = id then some (sc, off, last) else epochOf id r
@@ -230,7 +231,7 @@ theorem start_clauses {nx : Nat → Int → Option Int} {tr : List Ev} {m' : Mon
     ∃ sc off last, epochOf id tr = some (sc, off, last) ∧
       inProgress id tr = false ∧
       Chain nx sc last (startsSince id tr ++ [occ]) (nx sc occ) ∧
-      occ + off ≤ lastClock tr ∧ runAt = occ + off := by
+      occ * 1000 + off ≤ lastClock tr * 1000 ∧ runAt = occ + off.tdiv 1000 := by
   obtain ⟨m, ht, hs⟩ := Tr.inv h
   have d := tr_decl ht
   simp only [monStep] at hs
